@@ -85,12 +85,8 @@ def rule_point_file(ctx):
 
 def rule_ta(ctx):
     lt = ctx.body('engine::Run::load_ta')
-    cls = [c for c in ctx.closures(lt) if c.calls('Cert::decode')]
-    ok = False
-    for c in cls:
-        for s in c.calls('Result::ok'):
-            if 'Cert::decode' in arg_desc(s, 0):
-                ok = True
+    from props.C10 import stored_copy_semantics
+    _dec, ok = stored_copy_semantics(ctx, lt)
     ctx.check(ok, 'K12', 'engine::load_ta:stored-ta-undecodable=>absent', 'a torn stored TA certificate is treated as absent (decode(..).ok())',
               'the stored trust anchor certificate is no longer read tolerantly: update_ta writes it in place, a torn file must count as absent')
     sl = ctx.body('store::Run::load_ta')
